@@ -48,11 +48,20 @@ Theorem C09_code_tie :
   gen_size_from_batch_file = true /\ gen_leftover_is_error = true
   /\ (forall allow isfile, gen_use_default allow false isfile = allow && negb isfile)
   /\ (forall cu allow, gen_clean_up_default cu allow = (eff_clean_up cu allow, allow))
-  /\ (forall allow ready, gen_check_ready allow false ready = if negb (allow || ready) then Err E_XYZ else Ok tt).
+  /\ (forall allow ready, gen_check_ready allow false ready = if negb (allow || ready) then Err E_XYZ else Ok tt)
+  /\ gen_reaper_call_raw = (true, true, true, true) /\ gen_reaper_call_to_ds = (true, true, true, true).
 Proof.
   exact (conj (proj1 bridge_size) (conj (proj2 bridge_size)
-        (conj bridge_use_default (conj bridge_clean_up bridge_check_ready)))).
+        (conj bridge_use_default (conj bridge_clean_up (conj bridge_check_ready bridge_reaper_calls))))).
 Qed.
+
+(* sensitivity: a reap entry point that does not pass allow_incomplete on leaves the Reaper with its own
+   default (allowed iff a placeholder exists): a bool / str crop (placeholder None) then reads the result file
+   of an unfinished batch although the caller asked for a partial reap *)
+Lemma C09_reaper_default_refuted :
+  gen_reaper_default_allow None false = false /\ gen_use_default (gen_reaper_default_allow None false) false false = false
+  /\ gen_use_default (gen_reaper_default_allow (Some true) false) false false = true.
+Proof. repeat split; reflexivity. Qed.
 
 (* the old placeholder size rule: batchsize + [i < remainder] with the 1-based id i.  With 6
    settings in 4 batches (sizes 2,2,1,1; batchsize 1, remainder 2) it gives batch 2 one setting
